@@ -1387,6 +1387,23 @@ def check_savepoint(ctx, fname, seed, ops, mechs=MECHS, driver=None, stale=True,
             cls = _blame_class(b.top, e)
             fail(f"{mech}:{cls}:{where}", f"{mech} of {short} after history {list(ops)} raised "
                  f"{type(e).__name__}: {str(e)[:200]}", mechanism=mech, error=str(e)[:500])
+    # UNTOUCHED snapshots of a model that HAS PREDICTED (eval mode, caches alive): one deep copy is evaluated at once (the
+    # reference), further copies are left alone until the original has gone on training (divergence phase)
+    # (the reference is the original's own as-is prediction, first stage of `observe` below)
+    untouched, sd_now, sd_loaded = None, None, None
+    full = (not ctx.quick) or list(ops) == canonical_history(ctx.tier)[:4]
+    if diverge and full and not b.top.training:        # (no use of the class table: this must also run when the tie broke)
+        untouched = {}
+        for mech_u, mk_u in (("deepcopy", lambda: copy.deepcopy(b.top)), ("pickle", lambda: pickle.loads(pickle.dumps(b.top)))):
+            if mech_u == "pickle" and ctx.quick and not FAMILIES[fname][1]:
+                continue
+            try:
+                untouched[mech_u] = b.rebind(mk_u())
+            except Exception:
+                pass                # a failing copy is reported by the mechanism loop above
+    if diverge and full and "state_dict" in restored:
+        sd_now = {k: v.detach().clone() for k, v in b.top.state_dict().items()}
+        sd_loaded = {k: v.detach().clone() for k, v in restored["state_dict"].top.state_dict().items()}
     # the mechanisms must not have changed the original
     after = {p: d for p, (m, d) in _attr_snapshot(b.top).items()}
     mods_by_path = dict(b.top.named_modules(remove_duplicate=False))
@@ -1449,7 +1466,7 @@ def check_savepoint(ctx, fname, seed, ops, mechs=MECHS, driver=None, stale=True,
         ctx.broke("correspondence", f"family:{fname}", f"observing the ORIGINAL failed at {err_o[0]}: {err_o[1]}\n{err_o[2]}")
         return None
     nontriv = bool(ops)
-    usable = {}
+    usable, obs_by_mech = {}, {}
     for mech, r in restored.items():
         desc = f"{fname}|{','.join(ops)}|{mech}"
         obs_r, err_r = observe(r)
@@ -1457,6 +1474,7 @@ def check_savepoint(ctx, fname, seed, ops, mechs=MECHS, driver=None, stale=True,
         bad, remaining = [], []
         if err_r is None:
             usable[mech] = r
+            obs_by_mech[mech] = obs_r
         if err_r is not None:
             cls = _blame_class(r.top, None, err_r[2])
             fail(f"{mech}:{cls}:restored-unusable:{err_r[0]}", f"{short} restored by {mech} after {list(ops)}: "
@@ -1497,6 +1515,15 @@ def check_savepoint(ctx, fname, seed, ops, mechs=MECHS, driver=None, stale=True,
                 fail(f"mismatch:{fname}:{mech}:{k}", f"{short} restored by {mech} after {list(ops)}: {k} differs from "
                      f"the original by {err:.3e}", mechanism=mech, observable=k, err=err)
         # structure: aliasing kept, independence of the copy
+        if mech == "state_dict":
+            # the freshly CONSTRUCTED model shares no argument with the original: a module / parameter / buffer object
+            # that both contain lives in a process-global (a module-level default instance)
+            shared = _shared_objects(b.top, r.top)
+            if shared:
+                fail(f"process-global:{_short_cls(r.top, shared[0])}:{shared[0].rsplit('.', 1)[-1]}",
+                     f"{short}: the original and an independently constructed model of the same family (no common "
+                     f"constructor argument) contain the SAME object at {shared[:3]} — a process-global default instance; "
+                     f"load_state_dict / setters on one model rewrite the other", mechanism=mech, shared=shared[:6])
         if mech != "state_dict":
             al = _aliasing(r.top)
             if al != alias0:
@@ -1526,9 +1553,102 @@ def check_savepoint(ctx, fname, seed, ops, mechs=MECHS, driver=None, stale=True,
                 fail(f"stale-cache-after-load:{fname}:{k}", f"{short}: load_state_dict into a model that had already "
                      f"predicted; its next prediction differs from the loaded model's by {err:.3e} (old caches in effect)",
                      observable=k, err=err, live_caches=live)
+    if sd_loaded is not None and not pending_init and not any(k.startswith("state_dict:") for k in fails):
+        try:
+            _check_mapping_forms(ctx, fail, fname, seed, ops, sd_now, sd_loaded, obs_by_mech.get("state_dict"),
+                                 was_training, with_obs=not ctx.quick)
+        except Exception as e:
+            ctx.broke("correspondence", f"mapping-forms:{fname}", f"{type(e).__name__}: {e}\n" + traceback.format_exc()[-800:])
     if diverge and usable:
-        _divergence(ctx, fail, fname, seed, ops, b, usable, obs_o, was_training, pending_init)
+        _divergence(ctx, fail, fname, seed, ops, b, usable, obs_o, was_training, pending_init, untouched)
     return fails
+
+
+def _shared_objects(top_a, top_b):
+    """paths in `top_b` of modules / parameters / buffers that are the same OBJECT as one in `top_a` (state-less torch
+    modules such as the process-wide `torch.nn.Softplus()` transform of the constraints do not count)"""
+    ids = {id(t) for t in list(top_a.parameters()) + list(top_a.buffers())}
+    ids |= {id(m) for m in top_a.modules()
+            if not (type(m).__module__.startswith("torch.") and not list(m.parameters()) and not list(m.buffers()))}
+    return [p for p, m in top_b.named_modules(remove_duplicate=False) if id(m) in ids] + \
+           [p for p, t in list(top_b.named_parameters(remove_duplicate=False))
+            + list(top_b.named_buffers(remove_duplicate=False)) if id(t) in ids]
+
+
+def _asis(b):
+    """prediction in the mode and with the caches the object is in — nothing is toggled, nothing is rebuilt first"""
+    torch, gpytorch = _import()
+    out = {}
+    with torch.no_grad(), gpytorch.settings.num_likelihood_samples(3), _settings(b):
+        torch.manual_seed(12345)
+        _dist_tensors(_call_model(b, b.Xs), "asis", out)
+    return out
+
+
+MAPPING_FORMS = ("plain-dict", "ordered-no-metadata", "reversed-order", "torch-save-plain", "per-child")
+
+
+def _mapping_form(form, sd, top):
+    """the state dict `sd` in another LEGAL mapping form; -> list of (module to load into, mapping)"""
+    import collections
+    torch, _ = _import()
+    items = [(k, v.detach().clone()) for k, v in sd.items()]
+    if form == "plain-dict":
+        return [(top, dict(items))]
+    if form == "ordered-no-metadata":
+        return [(top, collections.OrderedDict(items))]
+    if form == "reversed-order":
+        return [(top, dict(reversed(items)))]
+    if form == "torch-save-plain":
+        buf = io.BytesIO()
+        torch.save(dict(items), buf)
+        buf.seek(0)
+        return [(top, torch.load(buf))]
+    if form == "per-child":
+        if any("." not in k for k, _ in items):
+            return None
+        return [(m, {k[len(c) + 1:]: v for k, v in items if k.startswith(c + ".")}) for c, m in top.named_children()]
+    raise ValueError(form)
+
+
+def _check_mapping_forms(ctx, fail, fname, seed, ops, sd, sd_loaded, obs_loaded, was_training, with_obs):
+    """A state dict in every legal mapping form (no torch `_metadata`, other key order, a plain dict through torch.save,
+    one sub-dict per child module) must load exactly like the `state_dict()` object itself."""
+    torch, gpytorch = _import()
+    k0 = (len(ops) + len(fname)) % len(MAPPING_FORMS)
+    forms = MAPPING_FORMS[k0:] + MAPPING_FORMS[:k0]
+    f2 = build_fresh(fname, seed)
+    for form in forms:
+        try:
+            parts = _mapping_form(form, sd, f2.top)
+            if parts is None:
+                continue
+            with warnings.catch_warnings():
+                warnings.simplefilter("ignore")
+                for m, d in parts:
+                    m.load_state_dict(d)
+        except Exception as e:
+            fail(f"mapping-form:{form}:{fname}:error", f"{fname}: loading its state dict as {form} raised {type(e).__name__}: "
+                 f"{str(e)[:200]} (the state_dict() object itself loads)", mechanism="state_dict", form=form)
+            continue
+        ctx.count("mapping_form_loads")
+        now = f2.top.state_dict()
+        for k, v in sd_loaded.items():
+            w = now.get(k)
+            if w is None or w.shape != v.shape or not torch.equal(torch.nan_to_num(w.detach().double()),
+                                                                   torch.nan_to_num(v.double())):
+                fail(f"mapping-form:{form}:{fname}:{k.rsplit('.', 1)[-1]}", f"{fname} after {list(ops)}: the state dict given as "
+                     f"{form} loads differently from the state_dict() object: entry {k} is {_brief(_tensor_key(w)[3] if w is not None and w.numel() < 5 else w)} "
+                     f"instead of {_brief(_tensor_key(v)[3] if v.numel() < 5 else v)}", mechanism="state_dict", form=form, entry=k)
+                break
+    if with_obs and obs_loaded is not None:
+        f2.top.train(was_training)
+        obs_f, err_f = observe(f2)
+        if err_f is None:
+            for k, err in _cmp_obs(obs_loaded, obs_f):
+                fail(f"mapping-form:{forms[-1]}:{fname}:{k}", f"{fname} after {list(ops)}: loaded from the {forms[-1]} form of its "
+                     f"state dict, {k} differs by {err:.3e} from the model loaded from the state_dict() object",
+                     mechanism="state_dict", form=forms[-1], observable=k, err=err)
 
 
 def _mutate(bundle, salt):
@@ -1557,7 +1677,7 @@ def _cmp_obs(a, b_, rtol=1e-9):
     return out
 
 
-def _divergence(ctx, fail, fname, seed, ops, b, usable, obs_o, was_training, pending_init=False):
+def _divergence(ctx, fail, fname, seed, ops, b, usable, obs_o, was_training, pending_init=False, untouched=None):
     """DIVERGENCE phase.  Right after a round trip copy and original coincide, so state that the copy still reads from
     the original (a closure bound to the original module, a shared sub-module) is invisible.  Here (1) every restored
     object is changed (other parameter values + an optimiser step) and must then agree with an independent reference
@@ -1609,6 +1729,24 @@ def _divergence(ctx, fail, fname, seed, ops, b, usable, obs_o, was_training, pen
         if not _numerical(e):
             ctx.broke("correspondence", f"family:{fname}", f"divergence phase on the original: {type(e).__name__}: {e}")
         return
+    # the untouched snapshots: taken after the original had predicted, never toggled / reloaded / observed since; the
+    # original has now gone on training — they must still predict what a copy predicted at snapshot time, on every path
+    if untouched:
+        ref_asis, snaps_u = {k: v for k, v in obs_o.items() if k.startswith("asis")}, untouched
+        for mech, u in snaps_u.items():
+            try:
+                now = _asis(u)
+            except Exception as e:
+                fail(f"coupled:{fname}:{mech}:untouched-snapshot:error", f"{fname}: a {mech} snapshot of a model that had "
+                     f"predicted raises {type(e).__name__}: {str(e)[:200]} once the original has gone on training",
+                     mechanism=mech, phase="divergence")
+                continue
+            ctx.count("untouched_snapshot_checks")
+            for k, err in _cmp_obs(ref_asis, now):
+                fail(f"coupled:{fname}:{mech}:untouched-snapshot-follows-original:{k}", f"{fname} after {list(ops)}: a {mech} "
+                     f"snapshot taken after the model had predicted was left untouched while the ORIGINAL went on training; "
+                     f"its {k} moved by {err:.3e} from what a copy predicted at snapshot time — it still reads the "
+                     f"original's modules", mechanism=mech, observable=k, err=err, phase="divergence")
     if err_b2 is None and err_fb is None:
         for k, err in _cmp_obs(obs_fb, obs_b2):
             fail(f"divergence:{fname}:original:{k}", f"{fname} after {list(ops)}: after the round trips the ORIGINAL was "
@@ -2292,6 +2430,10 @@ def correspondence(ctx, want_driver=True):
     ctx.notes["phase_cpu_seconds"] = {"main": round(c_main - c0, 1), "shared_args+read_spy": round(c_shared - c_main, 1),
                                       "used_under": round(time.process_time() - c_shared, 1)}
     _check_torch_names(ctx)
+    try:
+        _default_pairs(ctx)
+    except Exception as e:
+        ctx.broke("correspondence", "default-pairs", f"{type(e).__name__}: {e}\n" + traceback.format_exc()[-800:])
     _lazy_rff(ctx)
     _legacy_keys(ctx)
     _finish(ctx, built, ok_fam, covered, exact_cov, unknown, fam_time, driver, want_driver)
@@ -2470,6 +2612,78 @@ def _lazy_rff(ctx):
         ctx.broke("correspondence", f"family:{fname}", f"{type(e).__name__}: {e}\n" + traceback.format_exc()[-1000:])
 
 
+def _default_pairs(ctx):
+    """PROCESS-GLOBAL sharing: two objects of every exported Module class constructed independently with DEFAULT
+    arguments (required ones from a small recipe table, no tensor shared) must contain no common module / parameter /
+    buffer object, and loading a (perturbed) state dict into one must not move the other's state dict."""
+    torch, gpytorch = _import()
+    Kn = gpytorch.kernels
+    recipes = {
+        "num_tasks": lambda: 2, "num_dims": lambda: 2, "num_mixtures": lambda: 2, "grid_size": lambda: 4, "num_classes": lambda: 3,
+        "num_features": lambda: 2, "vocab_size": lambda: 4, "num_samples": lambda: 4, "input_size": lambda: 2, "power": lambda: 2,
+        "num_deltas": lambda: 4, "num_inducing_points": lambda: 3, "base_kernel": lambda: Kn.RBFKernel(),
+        "data_covar_module": lambda: Kn.RBFKernel(), "base_kernels": lambda: [Kn.RBFKernel(), Kn.MaternKernel()],
+        "base_means": lambda: gpytorch.means.ConstantMean(), "loc": lambda: 0.3, "scale": lambda: 1.2, "concentration": lambda: 2.0,
+        "rate": lambda: 1.5, "a": lambda: 0.1, "b": lambda: 2.0, "low": lambda: 0.1, "high": lambda: 2.0, "n": lambda: 2,
+        "eta": lambda: 1.5, "lower_bound": lambda: 0.1, "upper_bound": lambda: 2.0, "num_inducing": lambda: 3,
+        "inducing_points": lambda: torch.rand(3, 2), "likelihood": lambda: gpytorch.likelihoods.GaussianLikelihood(),
+        "noise": lambda: torch.rand(5) + 0.1, "targets": lambda: torch.tensor([0, 1, 1, 0, 2]), "num_locs": lambda: 5,
+        "angle_prior": lambda: None, "radius_prior": lambda: None, "num_angular_weights": lambda: 3,
+        "radial_base_kernel": lambda: Kn.RBFKernel(), "sd_prior": lambda: gpytorch.priors.SmoothedBoxPrior(0.1, 2.0),
+        "mean": lambda: torch.zeros(2), "covariance_matrix": lambda: None, "nu": lambda: 3.0, "K": lambda: torch.eye(2),
+        "kernels": lambda: [Kn.RBFKernel(), Kn.RBFKernel()], "max_degree": lambda: 2,
+    }
+    done, skipped = 0, []
+    for name, cls in sorted(_exported().items()):
+        if inspect.isabstract(cls):
+            continue
+
+        def make():
+            sig = inspect.signature(cls.__init__)
+            kw = {}
+            for pn, par in list(sig.parameters.items())[1:]:
+                if par.kind in (par.VAR_POSITIONAL, par.VAR_KEYWORD) or par.default is not par.empty:
+                    continue
+                if pn not in recipes:
+                    raise LookupError(pn)
+                kw[pn] = recipes[pn]()
+            return cls(**kw)
+        try:
+            with warnings.catch_warnings():
+                warnings.simplefilter("ignore")
+                torch.manual_seed(1)
+                a = make()
+                torch.manual_seed(2)
+                b_ = make()
+        except Exception as e:
+            skipped.append(f"{name}: {type(e).__name__} {str(e)[:40]}")
+            continue
+        done += 1
+        cname = cls.__name__
+        shared = _shared_objects(a, b_)
+        if shared:
+            ctx.fail(f"process-global:{_short_cls(b_, shared[0])}:{shared[0].rsplit('.', 1)[-1]}",
+                     f"two independently default-constructed {cname} objects contain the SAME object at {shared[:3]} — a "
+                     f"process-global default instance", {"mechanism": "default-pair", "class": name})
+        try:
+            sd_a0 = {k: v.detach().clone() for k, v in a.state_dict().items()}
+            sd_b = {k: (v.detach() * 1.05 + 0.01 if v.is_floating_point() else v.detach().clone()) for k, v in b_.state_dict().items()}
+            with warnings.catch_warnings():
+                warnings.simplefilter("ignore")
+                b_.load_state_dict(sd_b)
+        except Exception:
+            continue
+        for k, v in sd_a0.items():
+            w = a.state_dict()[k]
+            if not torch.equal(torch.nan_to_num(w.detach().double()), torch.nan_to_num(v.double())):
+                ctx.fail(f"process-global:{cname}:state_dict:{k.rsplit('.', 1)[-1]}",
+                         f"two independently default-constructed {cname} objects: load_state_dict into one changed the "
+                         f"other's entry {k}", {"mechanism": "default-pair", "class": name})
+                break
+        ctx.case(f"default-pair|{name}", nontrivial=True, sample={"class": name, "phase": "default-pair"})
+    ctx.notes["default_pairs"] = {"classes_constructed_twice": done, "not_constructible_from_recipes": skipped}
+
+
 def _legacy_keys(ctx):
     """The two legacy-key pre-hooks: a state dict written by an older version must still load."""
     torch, gpytorch = _import()
@@ -2536,6 +2750,11 @@ def replay(ctx, payload):
         n = len(ctx.failures)
         _lazy_rff(ctx)
         return len(ctx.failures) == n
+    if mech == "default-pair":
+        n = len(ctx.failures)
+        _default_pairs(ctx)
+        key = payload.get("key")
+        return not any((f_["key"] if isinstance(f_, dict) else f_[0]) == key for f_ in ctx.failures[n:]) if key else len(ctx.failures) == n
     if mech and mech.startswith("legacy"):
         n = len(ctx.failures)
         _legacy_keys(ctx)
